@@ -158,8 +158,8 @@ theorem C06_sharded_rc_invariant (K P : Nat) (reads : List Seq) (perm : Option (
       sharded K P (flipSeqs m 0 reads) perm false thr prune' sigmas' = some gs' ∧ SameParts K false gs.nodes gs'.nodes := by
   have cfg' : ShardCfg K P (flipSeqs m 0 reads) perm :=
     ⟨cfg.p1, cfg.pk, cfg.k4, cfg.span, flipSeqs_len m 0 reads _ cfg.short, cfg.psize, cfg.pinj, cfg.pval⟩
-  obtain ⟨gs, gd, h1, h2, e1⟩ := C04_sharded_eq_direct K P reads perm false thr prune sigmas dsigma cfg hs
-  obtain ⟨gs', gd', h1', h2', e1'⟩ := C04_sharded_eq_direct K P (flipSeqs m 0 reads) perm false thr prune' sigmas' dsigma' cfg' hs'
+  obtain ⟨gs, gd, h1, h2, e1, _⟩ := C04_sharded_eq_direct K P reads perm false thr prune sigmas dsigma cfg hs
+  obtain ⟨gs', gd', h1', h2', e1', _⟩ := C04_sharded_eq_direct K P (flipSeqs m 0 reads) perm false thr prune' sigmas' dsigma' cfg' hs'
   have hnb : Filter.NoBoundary (reads.map plainRead) := by
     intro r hr; obtain ⟨r0, _, rfl⟩ := List.mem_map.mp hr; rfl
   obtain ⟨g1, g2, d1, d2, e2⟩ := C06_direct_rc_invariant K cfg.k4 (reads.map plainRead) hnb thr m dsigma dsigma' hs.directOK
